@@ -194,7 +194,7 @@ func (wc *wrapCtx) analyse() {
 				continue
 			}
 			for i := 0; i < st.NumFields(); i++ {
-				if st.Field(i).Name() == "ran" && st.Field(i).Type().String() != "sync/atomic.Bool" {
+				if st.Field(i).Name() == "ran" && types.Unalias(st.Field(i).Type()).String() != "sync/atomic.Bool" {
 					ranAtomic = false
 					wc.notes = append(wc.notes, "ran flag has type "+st.Field(i).Type().String())
 				}
